@@ -18,3 +18,77 @@ def load_positive(name):
 
 def Ctx(program):
     return context.Context(program)
+
+
+# --------------------------------------------------------------------------
+# mutation self-test (thorough tier): the confirmed seeded changes of a
+# property are applied, one at a time, to a scratch copy of /repo's *current*
+# sources and the property's quick check must report a violation there - and
+# must stay silent on the unmodified copy.
+
+import glob
+import json
+import shutil
+import subprocess
+import sys
+
+
+def mutation(run, pid):
+    from . import compdb
+    verif = prog.VERIF
+    seeds = sorted(glob.glob(os.path.join(verif, "seeded", pid + "_*", "patch.diff")))
+    scratch = os.path.join(verif, ".scratch", "%s-%d" % (pid, os.getpid()))
+    res = {"mutants": 0, "detected": 0, "not_applicable": 0, "missed": [], "baseline_exit": None, "details": []}
+    if os.environ.get("ZSA_EVIDENCE_DIR"):
+        return res              # we are a self-test child ourselves
+    try:
+        shutil.rmtree(scratch, ignore_errors=True)
+        os.makedirs(scratch)
+        ign = shutil.ignore_patterns("*.o", "*.lo", "*.la", "*.a", "*.so*", ".libs", ".deps", "*.Po", "*.Plo")
+        for d in ("src", "daemon"):
+            shutil.copytree(os.path.join(compdb.REPO, d), os.path.join(scratch, d), ignore=ign)
+        for n in ("config.h", "config.status", "site_def.h"):
+            if os.path.exists(os.path.join(compdb.REPO, n)):
+                shutil.copy2(os.path.join(compdb.REPO, n), os.path.join(scratch, n))
+        env = dict(os.environ, ZVBI_REPO=scratch, ZSA_EVIDENCE_DIR=os.path.join(scratch, "_evidence"), VERIF_TIER="quick")
+
+        def check():
+            r = subprocess.run([sys.executable, os.path.join(verif, "check"), pid, "--tier", "quick"], env=env,
+                               stdout=subprocess.PIPE, stderr=subprocess.STDOUT, timeout=900)
+            out = r.stdout.decode(errors="replace")
+            first = ""
+            lines = out.split("\n")
+            for k, l in enumerate(lines):
+                if l.startswith("VIOLATION") and k + 1 < len(lines):
+                    first = lines[k + 1].strip()[:160]
+                    break
+            return r.returncode, first
+
+        rc, _ = check()
+        res["baseline_exit"] = rc
+        for pd in seeds:
+            sid = os.path.basename(os.path.dirname(pd))
+            ap = subprocess.run(["patch", "-p1", "-s", "-f", "-d", scratch, "-i", pd], stdout=subprocess.PIPE, stderr=subprocess.STDOUT)
+            if ap.returncode != 0:
+                subprocess.run(["patch", "-p1", "-s", "-f", "-R", "-d", scratch, "-i", pd], stdout=subprocess.PIPE, stderr=subprocess.STDOUT)
+                res["not_applicable"] += 1
+                res["details"].append({"seed": sid, "result": "patch does not apply to the current tree"})
+                # restore the files the failed patch may have touched
+                for line in open(pd, errors="replace"):
+                    if line.startswith("+++ b/"):
+                        rel = line[6:].strip()
+                        if os.path.exists(os.path.join(compdb.REPO, rel)):
+                            shutil.copy2(os.path.join(compdb.REPO, rel), os.path.join(scratch, rel))
+                continue
+            res["mutants"] += 1
+            rc2, first = check()
+            if rc2 == 1:
+                res["detected"] += 1
+                res["details"].append({"seed": sid, "result": "detected", "first_report": first})
+            else:
+                res["missed"].append(sid)
+                res["details"].append({"seed": sid, "result": "MISSED (exit %d)" % rc2})
+            subprocess.run(["patch", "-p1", "-s", "-f", "-R", "-d", scratch, "-i", pd], stdout=subprocess.PIPE, stderr=subprocess.STDOUT)
+    finally:
+        shutil.rmtree(scratch, ignore_errors=True)
+    return res
